@@ -148,6 +148,16 @@ func (e *Env) ident(id *ast.Ident) *Val {
 		}
 		// imported package constants via qualified names are handled in selector
 	}
+	// ghost state and spec helpers live in the root package
+	if rp := c.prog.Pkgs[rootPkg]; rp != nil && rp != e.pkg() {
+		switch x := rp.Members[name].(type) {
+		case *ssa.Global:
+			p := c.ptrOf(c.val(nil2(e.fr), e.st, x))
+			return c.Load(e.st, p)
+		case *ssa.NamedConst:
+			return c.constVal(x.Value)
+		}
+	}
 	fail("unknown identifier %q", name)
 	return nil
 }
@@ -291,6 +301,12 @@ func (e *Env) binary(n *ast.BinaryExpr) *Val {
 
 func (e *Env) selector(n *ast.SelectorExpr) *Val {
 	c := e.c
+	if id, ok := n.X.(*ast.Ident); ok && id.Name == "callee" {
+		if v, ok := e.vars["callee."+n.Sel.Name]; ok {
+			return v
+		}
+		fail("callee has no parameter %q", n.Sel.Name)
+	}
 	// qualified identifier pkg.Name ?
 	if id, ok := n.X.(*ast.Ident); ok {
 		if _, bound := e.vars[id.Name]; !bound && e.lookupCell(id.Name) == nil {
@@ -577,6 +593,17 @@ func (e *Env) call(n *ast.CallExpr) *Val {
 		v := arg(0)
 		t := e.typeExpr(n.Args[1])
 		return c.unbox(nil, app("ival", v.Term), t)
+	case "isglobal":
+		// isglobal(p, name): p is (statically) the address of package variable name
+		v := arg(0)
+		id, ok := n.Args[1].(*ast.Ident)
+		if !ok {
+			fail("isglobal(p, name)")
+		}
+		if v.P != nil && v.P.Dim == 0 && (strings.HasSuffix(v.P.Comp, "."+id.Name)) && len(v.P.Path) == 0 {
+			return boolVal("true")
+		}
+		return boolVal("false")
 	case "isnil":
 		v := arg(0)
 		switch sortOf(v.T) {
@@ -650,6 +677,11 @@ func (e *Env) typeExpr(x ast.Expr) types.Type {
 	case *ast.Ident:
 		if pkg != nil {
 			if tn, ok := pkg.Members[n.Name].(*ssa.Type); ok {
+				return tn.Type()
+			}
+		}
+		if rp := e.c.prog.Pkgs[rootPkg]; rp != nil {
+			if tn, ok := rp.Members[n.Name].(*ssa.Type); ok {
 				return tn.Type()
 			}
 		}
